@@ -438,6 +438,11 @@ class Master(loader.Loader):
             'expires': self.cell.apps[app].placement_expiry
         }
 
+    def _record_placement(self, servername, appname):
+        """Record app placement."""
+        self.backend.put(z.path.placement(servername, appname),
+                         self._placement_data(appname))
+
     def _save_placement(self, placement):
         """Store latest placement as reference."""
         placement_data = json.dumps(placement)
